@@ -23,7 +23,7 @@ func ruleC20(prog *Program, rep *Report) {
 	ruleNumFamily(prog, rep, 1, "asm")
 	ruleGetTwins(prog, rep)
 	ruleCallOrder(prog, rep, 1, "asm")
-	ruleGuardTight(prog, rep, 1, "asm", "jp") // what counts as a path argument ("$", "@", "$.a") is decided by such tests; the parsers' byte-order-mark tests (3 < len(buf) for three bytes) are outside this scope
+	ruleGuardTight(prog, rep, 1, "asm", "jp")  // what counts as a path argument ("$", "@", "$.a") is decided by such tests; the parsers' byte-order-mark tests (3 < len(buf) for three bytes) are outside this scope
 	ruleDirectConversion(prog, rep, "asm", 15) // sum, dif, product, mod, eq and the ordering functions read integers of every width through these arms
 	// E-recover
 	rep.Rules = append(rep.Rules, "E-recover: asm.Plan.Execute begins with a deferred function literal that calls recover() and assigns its named error result; no go statement, os.Exit or log.Fatal* occurs in package asm")
